@@ -38,7 +38,11 @@ CONFIG_FLAGS = {
     "dbg": ["-tags", "verif,debug"],
     "race": ["-race", "-tags", "verif"],
     "racedbg": ["-race", "-tags", "verif,debug"],
+    # a 32-bit build of the same release code (GOARCH=386; such binaries run natively here): int and uintptr are 32 bits
+    # wide, 64-bit atomics need 8-byte alignment that the compiler does not provide for them
+    "rel32": ["-tags", "verif"],
 }
+CONFIG_ENV = {"rel32": {"GOARCH": "386", "CGO_ENABLED": "0"}}
 
 
 def log(*a):
@@ -68,7 +72,9 @@ def build_worker(config, workdir):
     out = os.path.join(workdir, "worker-" + config)
     cmd = ["go", "build"] + modfile_args(workdir) + CONFIG_FLAGS[config] + ["-o", out, "./cmd/worker"]
     t0 = time.time()
-    p = subprocess.run(cmd, cwd=HARNESS, env=GOENV, stdout=subprocess.PIPE, stderr=subprocess.STDOUT, text=True)
+    env = dict(GOENV)
+    env.update(CONFIG_ENV.get(config, {}))
+    p = subprocess.run(cmd, cwd=HARNESS, env=env, stdout=subprocess.PIPE, stderr=subprocess.STDOUT, text=True)
     if p.returncode != 0:
         log("BUILD FAILED (%s):\n%s" % (config, p.stdout))
         return None
@@ -539,7 +545,7 @@ def do_setup():
     workdir = os.path.join(BUILD, "setup-%d" % os.getpid())
     os.makedirs(workdir, exist_ok=True)
     ok = True
-    for cfgname in ("rel", "dbg", "race", "racedbg"):
+    for cfgname in ("rel", "dbg", "race", "racedbg", "rel32"):
         ok = (build_worker(cfgname, workdir) is not None) and ok
     shutil.rmtree(workdir, ignore_errors=True)
     return 0 if ok else 3
